@@ -10,7 +10,9 @@
 cd "$(dirname "$0")/.."
 ID=$1; shift
 EXTRA="$@"
-SRC=/tmp/seed/$ID/_out
+SUF=${ROUND:+$ROUND}          # ROUND=2 -> /tmp/seed/<ID>/_out2 and seeded/<ID>-r2
+SRC=/tmp/seed/$ID/_out$SUF
+DST=seeded/$ID${ROUND:+-r$ROUND}
 [ -f $SRC/patch.diff ] || { echo "no patch for $ID"; exit 2; }
 git -C /repo apply --check $SRC/patch.diff || { echo "PATCH DOES NOT APPLY to /repo HEAD"; exit 2; }
 S=$(mktemp -d /var/tmp/seedchk.XXXXXX)
@@ -37,18 +39,18 @@ for C in $ID $EXTRA; do
 done
 git -C /repo checkout -- .
 git -C /repo status --short | grep -v "^??" | head -3
-mkdir -p seeded/$ID
-cp $SRC/patch.diff seeded/$ID/patch.diff
-cp $SRC/demo.py seeded/$ID/demo.py
-python3 - "$ID" "$DM" "$DC" "$TESTS" "$RES" "$FAILED" <<'PY'
+mkdir -p $DST
+cp $SRC/patch.diff $DST/patch.diff
+cp $SRC/demo.py $DST/demo.py
+python3 - "$ID" "$DM" "$DC" "$TESTS" "$RES" "$FAILED" "$SRC" "$DST" <<'PY'
 import json,sys
-ID,DM,DC,TESTS,RES,FAILED=sys.argv[1:7]
-m=json.load(open(f'/tmp/seed/{ID}/_out/meta.json'))
+ID,DM,DC,TESTS,RES,FAILED,SRC,DST=sys.argv[1:9]
+m=json.load(open(f'{SRC}/meta.json'))
 m['confirmed_by_harness_author']={
   'demo_exit_with_change':int(DM),'demo_exit_without_change':int(DC),
   'tests_with_change':TESTS,'unexpected_test_failures':FAILED,
   'checks_run':RES.strip(),
   'procedure':'scratch copies of /repo HEAD with/without patch.diff: demo.py and the six main test files; then git -C /repo apply, ./check <ID> quick, git -C /repo checkout -- .'}
-json.dump(m,open(f'/verif/seeded/{ID}/meta.json','w'),indent=1)
+json.dump(m,open(f'/verif/{DST}/meta.json','w'),indent=1)
 PY
 rm -rf $S
